@@ -207,7 +207,13 @@ func runBuiltin(c builtinCase, jr *journal) (res jobResult) {
 				if c.Only >= 0 && sub != c.Only {
 					continue
 				}
+				if w == 4 && ri != 0 {
+					continue // Object.Call uses the owner as receiver: once per group is enough
+				}
 				rec := callRecord{Sub: sub, Recv: ks[r].Name, Args: strings.Join(argNames, ","), Way: ways[w], NT: nt}
+				if w == 4 {
+					rec.Recv = "owner"
+				}
 				if id := excludedCall(c.Fn, ks[r], ap, ks, w); id != "" {
 					rec.Out = "excluded:" + id
 					res.Calls = append(res.Calls, rec)
@@ -408,6 +414,7 @@ func checkBuiltin(c builtinCase) harness.Outcome {
 				msg = fmt.Sprintf("%s\nthe call in flight was %s; alone on a fresh runtime it returns, so earlier calls of the batch matter", msg, desc)
 			}
 		}
+		triageFatal(msg)
 		out.Fail = msg + "\n(property C02: the call must return a value or an error; the process must survive)"
 		out.Nontrivial = true
 		return out
@@ -477,6 +484,13 @@ func describeSub(c builtinCase) string {
 }
 
 var triageMu sync.Mutex
+
+func triageFatal(msg string) {
+	if os.Getenv("C02_TRIAGE") == "" {
+		return
+	}
+	triage([]escaped{{Where: "FATAL", Text: msg}})
+}
 
 func triage(ps []escaped) {
 	triageMu.Lock()
